@@ -532,7 +532,6 @@ class History:
         conn, ctx = self.conn, self.ctx
         self.log.append('s%d: %s(MaxObjectCount=%r)%s' % (
             s.sid, pullop, moc, '' if expect == 'ok' else ' [' + expect + ']'))
-        before = s.remaining()
         try:
             res = getattr(conn, pullop)(context, moc)
         except CIMError as exc:
@@ -561,7 +560,6 @@ class History:
             if s.state == 'open':
                 self.check_response(s, pullop, moc, objs, res.eos,
                                     res.context, False)
-        del before
         return res
 
     def act_pull(self, s):
@@ -739,7 +737,6 @@ class History:
             bad_moc = rng.choice([-1, -2 ** 31])
         else:
             bad_moc = rng.choice(['1', 1.0, [1]])
-        before = {s.sid: s.remaining() for s in live}
         n_before = len(self.srv.table())
         self.log.append('%s(%s, %r) [client-side invalid]' % (
             name, short(bad_ctx, 60), bad_moc))
@@ -758,7 +755,6 @@ class History:
             self.viol('client-side.invalid-argument-changed-server-state',
                       '%s with invalid %s changed the context table' % (
                           name, which))
-        del before
 
     def act_mutate(self):
         """Create or delete an item; open sessions must not notice."""
